@@ -1080,9 +1080,17 @@ class PDFType3Font(PDFSimpleFont):
         if "FontDescriptor" in spec:
             descriptor = dict_value(spec["FontDescriptor"])
         else:
-            descriptor = {"Ascent": 0, "Descent": 0, "FontBBox": spec["FontBBox"]}
+            descriptor = {"Ascent": 0, "Descent": 0, "FontBBox": spec.get("FontBBox")}
         PDFSimpleFont.__init__(self, descriptor, widths, spec)
-        self.matrix = cast(Matrix, tuple(list_value(spec.get("FontMatrix"))))
+        font_matrix = [resolve1(v) for v in list_value(spec.get("FontMatrix", []))]
+        if len(font_matrix) != 6 or not all(
+            isinstance(v, (int, float)) for v in font_matrix
+        ):
+            log.warning(
+                f"Type3 font with invalid FontMatrix {font_matrix!r}, assuming the usual 1/1000 scale"
+            )
+            font_matrix = [0.001, 0, 0, 0.001, 0, 0]
+        self.matrix = cast(Matrix, tuple(font_matrix))
         (_, self.descent, _, self.ascent) = self.bbox
         # A glyph-space displacement (w, 0) becomes (w * a, w * b) in text space
         # and (0, h) becomes (h * c, h * d): the horizontal scale is a, the
